@@ -343,6 +343,11 @@ func c10Check(c c10Case) *kit.Verdict {
 		return v.Failf("%s probe of %s://%v:%d still running %v after its start (timeout per request %v)\nserver: %s", c.Scan, c.Proto, net.IP(c.IP[:]), port, bound+20*time.Second, T, c.describe())
 	}
 	elapsed := time.Since(start)
+	if o.err != nil && o.res != nil {
+		// the engine's worker logs the error and drops the result: a record returned together with an error is not reported
+		v.Label("result-with-error")
+		o.res = nil
+	}
 	if elapsed > bound {
 		return v.Failf("%s probe took %v; configured timeout %v per request (bound incl. 3 s slack: %v)\nserver: %s", c.Scan, elapsed, T, bound, c.describe())
 	}
